@@ -1210,6 +1210,63 @@ func c03Case(w *core.Worker, i int) {
 			}
 		}
 	}
+	// recursive common table expressions whose iterations repeat rows (the anchor holds duplicates and NULLs): UNION ALL keeps
+	// every row of every iteration, UNION keeps each distinct row once
+	{
+		type nk struct {
+			n int
+			k string
+		}
+		bagAll := map[nk]int{}
+		for _, row := range gb.Rows {
+			kv := "NULL"
+			for j, cn := range gb.Cols {
+				if cn == "k" && row[j] != nil {
+					kv = *row[j]
+				}
+			}
+			for n := 1; n <= 3; n++ {
+				bagAll[nk{n, kv}]++
+			}
+		}
+		for _, all := range []bool{true, false} {
+			op := "UNION"
+			if all {
+				op = "UNION ALL"
+			}
+			q := fmt.Sprintf("WITH RECURSIVE w (n, k) AS (SELECT 1, k FROM b %s SELECT n + 1, k FROM w WHERE n < 3) SELECT n, k FROM w", op)
+			res := s.Exec(q)
+			if res.Err != nil || len(res.Views) != 1 {
+				viol("query-error", q, fmt.Sprint(res.Err), "", "")
+				continue
+			}
+			got := map[nk]int{}
+			for _, row := range res.Views[0].Rows {
+				n, _ := strconv.Atoi(row[0].S)
+				kv := row[1].S
+				if row[1].IsNull() {
+					kv = "NULL"
+				}
+				got[nk{n, kv}]++
+			}
+			bad := len(got) != len(bagAll)
+			for key, c := range bagAll {
+				want := c
+				if !all {
+					want = 1
+				}
+				if got[key] != want {
+					bad = true
+				}
+			}
+			judged++
+			qtexts = append(qtexts, q)
+			w.Count("recursive_ctes_with_repeated_rows", 1)
+			if bad {
+				viol("rows-differ:recursive-"+strings.ReplaceAll(strings.ToLower(op), " ", "-"), q, fmt.Sprintf("b holds %d rows; the result holds %d rows in %d distinct (n, k) pairs, expected %d pairs%s", len(gb.Rows), len(res.Views[0].Rows), len(got), len(bagAll), map[bool]string{true: " with the multiplicities of b", false: " once each"}[all]), fmt.Sprint(got), fmt.Sprint(bagAll))
+			}
+		}
+	}
 	// chains: a NATURAL / USING join whose left side is itself the result of a NATURAL / USING join (the columns merged by the
 	// first join are common columns of the second). Each chain has an equivalent spelled with ON conditions — the form the
 	// reference evaluator judges above — and must return the same bag of rows
